@@ -194,7 +194,23 @@ def known_findings(pid):
 
 
 # ------------------------------------------------------------------ evidence
+def repo_dirty():
+    """Uncommitted changes in /repo (a seeded mutant, a reverted fix, work in progress)?"""
+    try:
+        p = subprocess.run(["git", "-C", "/repo", "status", "--porcelain", "--untracked-files=no"],
+                           stdout=subprocess.PIPE, stderr=subprocess.DEVNULL, text=True, timeout=60)
+        return p.returncode == 0 and p.stdout.strip() != ""
+    except Exception:
+        return False
+
+
 def write_evidence(pid, tier, seed, level, coverage, assumptions, wall_s, violations):
+    # Evidence describes the check run against /repo as committed.  A run against a modified working tree
+    # (that is how seeded changes and reverted fixes are tried out) still gives its verdict, but must not
+    # overwrite the record: seven such files were once committed by mistake (DESIGN.md, section 8).
+    if repo_dirty():
+        log(f"[evidence] /repo has uncommitted changes: evidence/{pid}.json left untouched")
+        return
     os.makedirs(EVID, exist_ok=True)
     ev = {
         "property_id": pid, "tier": tier, "seed": seed, "level": level, "coverage": coverage,
